@@ -113,9 +113,6 @@ impl WorkerMap {
     { unimplemented!() }
 }
 
-// ---- ResourceRqMap / ResourceRequestVariants: index lookups (Vec index panics when out of range)
-//@ extract struct ResourceRequestVariants file=crates/tako/src/internal/common/resources/request.rs
-//@ extract struct ResourceRqMap file=crates/tako/src/internal/common/resources/map.rs
 
 // ---- scheduler task queues (scheduler/taskqueue.rs): BTreeMap entry API, outside the Verus subset.
 // ASSUMED abstract contracts (per request-id queue: set of ready ids, set of prefilled ids).
